@@ -1,6 +1,9 @@
 import QuickAdd.Lemmas.RulesTotalAll
 import QuickAdd.Lemmas.SearchTotal
 import QuickAdd.Lemmas.DigitGroups
+import QuickAdd.Lemmas.SearchYear
+import QuickAdd.Lemmas.FuelIndep
+import QuickAdd.Lemmas.TerminationArts
 /-!
 # C01 (continued) — one statement for all value-level productions
 
@@ -60,13 +63,40 @@ theorem lexical_rules_total (rid : RuleId) (hrid : rid ∈ lexRules) (r : String
 /-- the two classes are all 69 productions -/
 theorem rules_partition : ∀ e ∈ RuleId.all, e.2 ∈ valueRules ∨ e.2 ∈ lexRules := QuickAdd.rules_partition
 
+/-- **every production of the rule base keeps the year bound**: with `2999 ≤ B` (no year group of a shipped pattern reads more:
+    evaluated over the regenerated table) and `ts.year + 401 ≤ B` (the farthest a reference-relative production reaches: the
+    weekday-and-day-of-month search, by the 400-year periodicity of the calendar), a successful result carries no year above `B`
+    when no argument does -/
+theorem rules_preserve_year (r : RuleId) (ts : Ts) (hts : TsOk ts) (B : Int) (hB : YearCap ts B) (args : List Val)
+    (hargs : ∀ a ∈ args, a.Ok ∧ a.YearLe B) (v : Val) (h : applyId r ts args = .ok (some v)) : v.YearLe B :=
+  QuickAdd.rules_preserve_year r ts hts B hB args hargs v h
+
+/-- **no plain time value of a reachable production carries a year above 9990** (reference time of the years 2 … 9500, every
+    text, scorer, depth): what used to be hypothesis (b) of `search_total` -/
+theorem reach_year {S : Type} (sc : Scorer S) (ts : Ts) (hts : TsOk ts) (o : Opts) (txt : List Nat) (fuel : Nat) (p : List Art) (t : List String)
+    (rules : List (String × List Pred))
+    (hr : ReachE (mkCfg sc ts o.depth txt) (initialStack sc o.depth o.relMatchLenNum o.relMatchLenDen txt fuel).1 p t rules) :
+    ∀ a ∈ p, a.v.YearLe 9990 :=
+  QuickAdd.reach_year sc ts hts 9990 (yearCap_of_tsOk ts hts) o.depth txt _ (initialStack_ok sc _ _ _ txt fuel)
+    (initialStack_year sc 9990 _ _ _ txt fuel) p t rules hr
+
+/-- **every streamed candidate that is a plain time carries a year of at most `B`** for every `B ≥ 2999`, `B ≥ reference year + 401`
+    (e.g. 2999 for every reference time up to the year 2598): no composition of productions manufactures a far-away year -/
+theorem candidate_year_bounded {S : Type} (sc : Scorer S) (ts : Ts) (hts : TsOk ts) (o : Opts) (txt : List Nat) (fuel : Nat) (B : Int)
+    (hB : YearCap ts B) : ∀ c ∈ (searchCore sc ts o txt fuel).1.1, c.res.v.YearLe B := by
+  intro c hc
+  obtain ⟨p, rules, hr, hm, _⟩ := C15.search_sound sc ts o txt fuel c hc
+  exact QuickAdd.reach_year sc ts hts B hB o.depth txt _ (initialStack_ok sc _ _ _ txt fuel) (initialStack_year sc B _ _ _ txt fuel)
+    p _ rules hr c.res hm
+
+/-- the bound is met with room to spare by an ordinary reference time, and it is sharp in kind: a year group may read 2029 -/
+example : YearCap ⟨⟨2018, 3, 7⟩, 12, 43⟩ 2999 := ⟨by decide, by decide⟩
+
 /-- **the candidate stream never ends in an exception** (every text, scorer, option set, reference time of the years 2 … 9500),
-    provided (a) `int()` accepts every captured group text of the text's pattern matches and (b) no plain time value of a
-    reachable production carries a year above 9990: the only value the error component can take is the model's own fuel marker -/
+    provided `int()` accepts every captured group text of the text's pattern matches (hypothesis (a); discharged from the text in
+    `parse_total_text`): the only value the error component can take is the model's own fuel marker -/
 theorem search_total {S : Type} (sc : Scorer S) (ts : Ts) (hts : TsOk ts) (o : Opts) (txt : List Nat) (fuel : Nat)
-    (hint : ∀ a ∈ matchRegex txt, ∀ k, a.v = .tok k → TokInt k)
-    (hyear : ∀ p t rules, ReachE (mkCfg sc ts o.depth txt) (initialStack sc o.depth o.relMatchLenNum o.relMatchLenDen txt fuel).1 p t rules →
-      ∀ a ∈ p, a.v.YearLe 9990) :
+    (hint : ∀ a ∈ matchRegex txt, ∀ k, a.v = .tok k → TokInt k) :
     (searchCore sc ts o txt fuel).1.2 = none ∨ (searchCore sc ts o txt fuel).1.2 = some .unmodelled := by
   simp only [searchCore]
   by_cases hx : expiredAt o.deadline (initialStack sc o.depth o.relMatchLenNum o.relMatchLenDen txt fuel).2 = true
@@ -84,21 +114,57 @@ theorem search_total {S : Type} (sc : Scorer S) (ts : Ts) (hts : TsOk ts) (o : O
         have hcal := C02.reach_cal sc ts o.depth txt _ (C02.initialStack_cal sc _ _ _ txt fuel) p t rules hr
         have hlin := lineage_reach sc ts hts.valid o.depth txt _ (lineage_init sc _ _ _ txt fuel) p t rules hr
         have hw : WindowOk txt p :=
-          ⟨fun a ha => ⟨hok.1 a ha, hcal a ha, hyear p t rules hr a ha⟩, fun a ha hv => hlin.toks a ha hv,
+          ⟨fun a ha => ⟨hok.1 a ha, hcal a ha, reach_year sc ts hts o txt fuel p t rules hr a ha⟩, fun a ha hv => hlin.toks a ha hv,
            fun a ha k hk => hint a (hlin.toks a ha (isVal_false_of_tok a k hk)) k hk⟩
         obtain ⟨out, hout⟩ := expand_total ts hts txt rules hok.2 p t hw
         have : (mkCfg sc ts o.depth txt).expand rules p t = expandArts ts rules p t := rfl
         rw [this, hout] at hexp
         cases hexp
 
+/-- **the candidate stream terminates, and it ends cleanly**: with more fuel than `fuelNeeded` of the initial stack — an explicit
+    number, `Σ (B+1)^(cost of the match sequence)` with `B` = number of registered rules × total cost — the main loop never reaches
+    its fuel marker, so the stream ends without any exception.  Termination argument (`Lemmas/Termination`, `TerminationArts`):
+    every successful rule application lowers the cost of the production (a pattern match costs 5, a time value without a year 3,
+    any other value 2; windows of two or more become one value, a match becomes a value, and the only one-argument productions on
+    values — the four latent ones, read off the regenerated signature table — turn an undated value into a dated one); an
+    expansion has at most `B` successors; the dedup tables, the sort and the depth cut only permute and remove. -/
+theorem search_terminates {S : Type} (sc : Scorer S) (ts : Ts) (hts : TsOk ts) (o : Opts) (txt : List Nat) (fuel : Nat)
+    (hint : ∀ a ∈ matchRegex txt, ∀ k, a.v = .tok k → TokInt k)
+    (hfuel : fuelNeeded (initialStack sc o.depth o.relMatchLenNum o.relMatchLenDen txt fuel).1 < fuel) :
+    (searchCore sc ts o txt fuel).1.2 = none := by
+  simp only [searchCore]
+  by_cases hx : expiredAt o.deadline (initialStack sc o.depth o.relMatchLenNum o.relMatchLenDen txt fuel).2 = true
+  · simp [hx]
+  · simp only [hx, Bool.false_eq_true, if_false]
+    cases he : (run (mkCfg sc ts o.depth txt) fuel (o.deadline.map (· - (initialStack sc o.depth o.relMatchLenNum o.relMatchLenDen txt fuel).2))
+        (initialStack sc o.depth o.relMatchLenNum o.relMatchLenDen txt fuel).1 [] []).2 with
+    | none => rfl
+    | some e =>
+      exfalso
+      obtain ⟨rules, p, t, hr, hexp⟩ := run_err_enough (mkCfg sc ts o.depth txt) _ measure _
+        (search_step_bound sc ts hts.valid o.depth txt _ (initialStack_ok sc _ _ _ txt fuel) (initialStack_rules_len sc _ _ _ txt fuel))
+        fuel _ _ [] [] e (fun x hx' => ReachE.init hx') hfuel he
+      have hok := reach_ok sc ts hts.valid o.depth txt _ (initialStack_ok sc _ _ _ txt fuel) p t rules hr
+      have hcal := C02.reach_cal sc ts o.depth txt _ (C02.initialStack_cal sc _ _ _ txt fuel) p t rules hr
+      have hlin := lineage_reach sc ts hts.valid o.depth txt _ (lineage_init sc _ _ _ txt fuel) p t rules hr
+      have hw : WindowOk txt p :=
+        ⟨fun a ha => ⟨hok.1 a ha, hcal a ha, reach_year sc ts hts o txt fuel p t rules hr a ha⟩, fun a ha hv => hlin.toks a ha hv,
+         fun a ha k hk => hint a (hlin.toks a ha (isVal_false_of_tok a k hk)) k hk⟩
+      obtain ⟨out, hout⟩ := expand_total ts hts txt rules hok.2 p t hw
+      have : (mkCfg sc ts o.depth txt).expand rules p t = expandArts ts rules p t := rfl
+      rw [this, hout] at hexp
+      cases hexp
+
+/-- the bound on a concrete text: 'tomorrow 5pm' (two matches, one sequence) -/
+example : fuelNeeded (initialStack constScorer 10 1 1 [116, 111, 109, 111, 114, 114, 111, 119, 32, 53, 112, 109] 400).1 =
+    (69 * 10 + 1) ^ 10 := by decide +kernel
+
 /-- **… and neither does `ctparse_gen` with latent-time anchoring**: post-processing of the streamed candidates (every one is well
     formed, `C02.search_candidates_ok`) never raises, so the error component of the whole parse is that of the search -/
 theorem parse_total {S : Type} (sc : Scorer S) (ts : Ts) (hts : TsOk ts) (o : Opts) (raw : List Nat) (fuel : Nat)
-    (hint : ∀ a ∈ matchRegex (stripLabels (preprocess raw)), ∀ k, a.v = .tok k → TokInt k)
-    (hyear : ∀ p t rules, ReachE (mkCfg sc ts o.depth (stripLabels (preprocess raw)))
-        (initialStack sc o.depth o.relMatchLenNum o.relMatchLenDen (stripLabels (preprocess raw)) fuel).1 p t rules → ∀ a ∈ p, a.v.YearLe 9990) :
+    (hint : ∀ a ∈ matchRegex (stripLabels (preprocess raw)), ∀ k, a.v = .tok k → TokInt k) :
     (ctparseGen sc ts o raw fuel).err = none ∨ (ctparseGen sc ts o raw fuel).err = some .unmodelled := by
-  have hs := search_total sc ts hts o (stripLabels (preprocess raw)) fuel hint hyear
+  have hs := search_total sc ts hts o (stripLabels (preprocess raw)) fuel hint
   have hok := fun c hc => (C02.search_candidates_ok sc ts hts.valid o (stripLabels (preprocess raw)) fuel c hc).1
   have hl := latentAll_total ts hts _ hok
   unfold ctparseGen
@@ -117,11 +183,25 @@ theorem tokInt_of_text (txt : List Nat) (hne : NoExotic txt) : ∀ a ∈ matchRe
 /-- `parse_total` with hypothesis (a) discharged: for every raw text whose normalised, label-free form contains none of the listed
     unknown digits -/
 theorem parse_total_text {S : Type} (sc : Scorer S) (ts : Ts) (hts : TsOk ts) (o : Opts) (raw : List Nat) (fuel : Nat)
-    (hne : NoExotic (stripLabels (preprocess raw)))
-    (hyear : ∀ p t rules, ReachE (mkCfg sc ts o.depth (stripLabels (preprocess raw)))
-        (initialStack sc o.depth o.relMatchLenNum o.relMatchLenDen (stripLabels (preprocess raw)) fuel).1 p t rules → ∀ a ∈ p, a.v.YearLe 9990) :
+    (hne : NoExotic (stripLabels (preprocess raw))) :
     (ctparseGen sc ts o raw fuel).err = none ∨ (ctparseGen sc ts o raw fuel).err = some .unmodelled :=
-  parse_total sc ts hts o raw fuel (QuickAdd.tokInt_of_text _ hne) hyear
+  parse_total sc ts hts o raw fuel (QuickAdd.tokInt_of_text _ hne)
+
+/-- **`ctparse_gen` terminates and ends cleanly**: every raw text whose normalised label-free form has none of the listed digits,
+    every reference time of the years 2 … 9500, scorer and option set, and every fuel above the explicit bound — no exception,
+    no fuel marker, with and without latent-time anchoring -/
+theorem parse_terminates {S : Type} (sc : Scorer S) (ts : Ts) (hts : TsOk ts) (o : Opts) (raw : List Nat) (fuel : Nat)
+    (hne : NoExotic (stripLabels (preprocess raw)))
+    (hfuel : fuelNeeded (initialStack sc o.depth o.relMatchLenNum o.relMatchLenDen (stripLabels (preprocess raw)) fuel).1 < fuel) :
+    (ctparseGen sc ts o raw fuel).err = none := by
+  have hs := search_terminates sc ts hts o (stripLabels (preprocess raw)) fuel (QuickAdd.tokInt_of_text _ hne) hfuel
+  have hok := fun c hc => (C02.search_candidates_ok sc ts hts.valid o (stripLabels (preprocess raw)) fuel c hc).1
+  have hl := latentAll_total ts hts _ hok
+  unfold ctparseGen
+  simp only
+  split
+  · simp only [hl]; exact hs
+  · exact hs
 
 /-- hypothesis (a) is met by ordinary tokens: '5pm' has a numeric group that converts and a marker group that is never converted -/
 example : TokInt { id := 128, caps := [("ampm", [112, 109]), ("hour", [53])] } := by
@@ -137,6 +217,19 @@ example : ¬ TokInt { id := 128, caps := [("hour", [0x1D7CE])] } ∨ (pyInt [0x1
     intro hi
     obtain ⟨v, hv⟩ := hi "hour" (by decide) [0x1D7CE] rfl
     rw [hv] at h; exact h rfl
+/-- **the model's fuel is only a device**: once the DFS over the match graph finished within the fuel (`dfsFinished`: it counts
+    its iterations) and the stream ended without an exception and without the fuel marker, every larger fuel gives the identical
+    parse — candidates, order, scores, subject, labels.  (That *some* fuel suffices, i.e. termination, is not proved; the
+    correspondence runs the driver with a fuel no generated input exhausts and reports `Unmodelled` if one does.) -/
+theorem parse_fuel_independent {S : Type} (sc : Scorer S) (ts : Ts) (o : Opts) (raw : List Nat) (fuel : Nat)
+    (hd : dfsFinished (stripLabels (preprocess raw)) fuel = true)
+    (he : (searchCore sc ts o (stripLabels (preprocess raw)) fuel).1.2 = none) (k : Nat) :
+    ctparseGen sc ts o raw (fuel + k) = ctparseGen sc ts o raw fuel :=
+  ctparseGen_fuel_indep sc ts o raw fuel hd he k
+
+/-- its hypotheses on a concrete run: 'tomorrow 5pm' needs far less than 400 units -/
+example : dfsFinished [116, 111, 109, 111, 114, 114, 111, 119, 32, 53, 112, 109] 400 = true := by decide +kernel
+
 /-- the conclusion on a concrete run -/
 example : (searchCore constScorer ⟨⟨2018, 3, 7⟩, 12, 43⟩ {} [116, 111, 109, 111, 114, 114, 111, 119, 32, 53, 112, 109] 400).1.2 = none := by decide +kernel
 
